@@ -26,20 +26,22 @@ import (
 
 // FileManager manages in-memory files that used during the code generation process.
 type FileManager struct {
-	files []*plugin.Generated
-	patch map[string][]*plugin.Generated
-	index map[string]int
-	count map[string]int
-	log   backend.LogFunc
+	files   []*plugin.Generated
+	patch   map[string][]*plugin.Generated
+	index   map[string]int
+	count   map[string]int
+	renames map[string][]int // indexes of the files renamed from a name
+	log     backend.LogFunc
 }
 
 // NewFileManager creates a new FileManager.
 func NewFileManager(log backend.LogFunc) *FileManager {
 	return &FileManager{
-		patch: make(map[string][]*plugin.Generated),
-		index: make(map[string]int),
-		count: make(map[string]int),
-		log:   log,
+		patch:   make(map[string][]*plugin.Generated),
+		index:   make(map[string]int),
+		count:   make(map[string]int),
+		renames: make(map[string][]int),
+		log:     log,
 	}
 }
 
@@ -69,11 +71,10 @@ FileLoop:
 				fst := idx
 				ext := filepath.Ext(name)
 				pth := strings.TrimSuffix(name, ext)
-				cnt := 1
 
-				var renamed string
-				for {
-					if fm.files[idx].Content == f.Content { // duplicate content
+				// compare with the file owning the name and with the files renamed from it
+				for _, k := range append([]int{idx}, fm.renames[name]...) {
+					if fm.files[k].Content == f.Content { // duplicate content
 						fm.log.Info(fmt.Sprintf("[%s] discard generated file '%s': size %d", src, name, len(f.Content)))
 						for j := i + 1; j < len(files) && !files[j].IsSetName(); j++ {
 							fm.log.Info("discard patch @", files[j].GetInsertionPoint())
@@ -81,19 +82,21 @@ FileLoop:
 						}
 						continue FileLoop
 					}
+				}
+
+				// pick a name that no other file uses
+				cnt := fm.count[name] + 1
+				renamed := fmt.Sprintf("%s_%d%s", pth, cnt, ext)
+				for _, used := fm.index[renamed]; used; _, used = fm.index[renamed] {
+					cnt++
 					renamed = fmt.Sprintf("%s_%d%s", pth, cnt, ext)
-					if cnt > fm.count[name] {
-						break
-					} else {
-						idx = fm.index[renamed]
-						cnt++
-					}
 				}
 
 				fm.log.Warn(fmt.Sprintf("[%s] file names conflict: '%s' (%d <> %d)", src, name, len(fm.files[fst].Content), len(f.Content)))
 				fm.index[renamed] = len(fm.files)
 				fm.files = append(fm.files, f)
-				fm.count[name]++
+				fm.renames[name] = append(fm.renames[name], len(fm.files)-1)
+				fm.count[name] = cnt
 				f.Name = &renamed
 				name = renamed // propagate the new name to last
 			}
